@@ -145,6 +145,10 @@ func genAccept(r *core.Rand, produces, registered []string) []accRange {
 		if r.Chance(1, 6) {
 			a.after = append(a.after, r.Pick([]string{"level=2", "ext=1"}))
 		}
+		if a.q != "" && r.Chance(1, 10) {
+			// an extension parameter behind the weight that happens to be called q as well: the weight is the first one
+			a.after = append(a.after, r.Pick([]string{"q=0.05", "q=1", "q=0.999"}))
+		}
 		out[i] = a
 	}
 	return out
@@ -200,12 +204,15 @@ func orderedSubsets(pool []string, max int, r *core.Rand, limit int) [][]string 
 	return all
 }
 
+const c05VendorJSON = "application/vnd.verif.neg+json"
+
 func c05(ctx *core.Ctx) {
 	quietLogs()
-	ctx.Rule("routes with every ordered Produces list (size 1-3) over the registered media types x generated Accept headers (1-18 ranges, now and then 33, 65 or 100, q-values, parameters before/after q, */*, foreign types, absent, two header fields) x default response content type {unset, JSON, XML} x registered-writer set {built-in, +text/plain, +application/x-verif, +8 types registered concurrently while clients already ask for one of them, +types registered with a parameter of their own (charset, version)}; handler calls WriteEntity / WriteHeaderAndEntity; every route is registered for GET, HEAD, PUT, DELETE, PATCH and POST (requests rotate over them); every third route also declares media types without a registered writer; every fourth request goes through a container with an adapted pass-through middleware; every seventh handler overwrites Accept in the request's header map (preparing an upstream call) before it writes its entity; long headers whose producible ranges only come at the very end. Oracle: reference ranker; SP-decorated spelling and 3 repetitions must give the same choice. Non-trivial = an admitted request that wrote an entity; distinct by (writer set, default, produces list, winning rule: exact/star/absent, number of ranges bucket, decorated).")
+	ctx.Rule("routes with every ordered Produces list (size 1-3) over the registered media types x generated Accept headers (1-18 ranges, now and then 33, 65 or 100, q-values, parameters before/after q, */*, foreign types, absent, two header fields) x default response content type {unset, JSON, XML} x registered-writer set {built-in, +text/plain, +application/x-verif and a vendor JSON type on the library's own JSON accessor (pretty and compact), +8 types registered concurrently while clients already ask for one of them, +types registered with a parameter of their own (charset, version)}; handler calls WriteEntity / WriteHeaderAndEntity; every route is registered for GET, HEAD, PUT, DELETE, PATCH and POST (requests rotate over them); every third route also declares media types without a registered writer; every fourth request goes through a container with an adapted pass-through middleware; every seventh handler overwrites Accept in the request's header map (preparing an upstream call) before it writes its entity; long headers whose producible ranges only come at the very end. Oracle: reference ranker; SP-decorated spelling and 3 repetitions must give the same choice. Non-trivial = an admitted request that wrote an entity; distinct by (writer set, default, produces list, winning rule: exact/star/absent, number of ranges bucket, decorated).")
 	ctx.Assume("Accept grammar: full media types and */*, well-formed q-values (malformed q and type/* ranges are outside the property)",
 		"with two Accept header fields only the reference-free clauses (Content-Type in Produces, never 406) are judged")
 	defer restful.DefaultResponseContentType("")
+	defer func() { restful.PrettyPrintResponses = true }()
 	registered := []string{restful.MIME_JSON, restful.MIME_XML}
 	phases := []string{"builtin", "+text/plain", "+application/x-verif", "+concurrent", "+parameterised"}
 	headersPer := ctx.N(300, 6000)
@@ -217,7 +224,9 @@ func c05(ctx *core.Ctx) {
 			registered = append(registered, "text/plain")
 		case 2:
 			restful.RegisterEntityAccessor("application/x-verif", customAccessor{"application/x-verif"})
-			registered = append(registered, "application/x-verif")
+			// and a vendor media type served by the library's own JSON accessor (pretty printing is switched per request)
+			restful.RegisterEntityAccessor(c05VendorJSON, restful.NewEntityAccessorJSON(c05VendorJSON))
+			registered = append(registered, "application/x-verif", c05VendorJSON)
 		case 3:
 			// registration from several goroutines at once is a legitimate use of the registry's lock
 			var wg sync.WaitGroup
@@ -399,6 +408,7 @@ func c05(ctx *core.Ctx) {
 						}
 					}
 					send := func(accept []string, created bool) *rt.Outcome {
+						restful.PrettyPrintResponses = h%3 != 1 // every third header is answered in the compact form
 						req := rt.Req{Method: c05Methods[(h/3)%len(c05Methods)], Path: fmt.Sprintf("/n/p%d", li), Hdr: map[string]string{}}
 						if created {
 							req.Hdr["X-Created"] = "1"
@@ -486,7 +496,7 @@ func c05(ctx *core.Ctx) {
 					// body decodes with the codec of that type
 					body := out.Rec.Body.Bytes()
 					switch {
-					case ct == restful.MIME_JSON:
+					case ct == restful.MIME_JSON || ct == c05VendorJSON:
 						var e negEntity
 						if err := json.Unmarshal(body, &e); err != nil || e.N != 7 {
 							ctx.Violation(caseIdx, "c05:body-json", fmt.Sprintf("body labelled JSON does not decode: %v %q", err, body), doc)
